@@ -442,6 +442,11 @@ protected:
         {
            m_freeListHeadPtr = allocate(1);
            newNode = m_freeListHeadPtr;
+
+           // Terminate the free list now: if constructing the
+           // value throws, the node stays on the free list, and
+           // the destructor must not follow an uninitialized link.
+           newNode->next = 0;
         }
 
         Constructor::construct(&newNode->value, data, *m_memoryManager);
